@@ -99,7 +99,7 @@ ProcessAccepts(C, p) ==
 
 (* Whether the block message of a finalised block succeeds (goat-level checks; the module requests may still fail). *)
 BlockMsgChecks(C, p) ==
-  /\ p.signerOk /\ p.recipientOk
+  /\ p.signerOk /\ p.recipientOk /\ p.timeoutOk        \* signature and timeout = height are the admission rules (C10) applied in FinalizeBlock
   /\ p.parentOk /\ p.numberOk
   /\ p.blobOk
   /\ p.beaconOk
